@@ -60,10 +60,12 @@ fn run(id: &str, tier: Tier, replay: Option<String>) -> i32 {
         "C03" => checks::c03::main(tier, replay),
         "C04" => checks::c04::main(tier, replay),
         "C05" => checks::c05::main(tier, replay),
+        "C06" => checks::c06::main(tier, replay),
         "C07" => checks::c07::main(tier, replay),
         "C08" => checks::c08::main(tier, replay),
         "C09" => checks::c09::main(tier, replay),
         "C10" => checks::c10::main(tier, replay),
+        "C11" => checks::c11::main(tier, replay),
         "C13" => checks::c13::main(tier, replay),
         "C14" => checks::c14::main(tier, replay),
         "C15" => checks::c15::main(tier, replay),
